@@ -83,8 +83,10 @@ def main(tier, replay):
         "(8-12 detectors, 2-3 rings, span 1/3, non-TOF and TOF 3/5 bins, "
         "ProjMatrixByBinUsingRayTracing with all 32 symmetry switch combinations, image 5/7 voxels across), additive term on/off, normalisation trivial / "
         "FromProjData / chained / base-class efficiency table — for TOF data also with one factor per TOF bin (FromProjData on TOF data, a TOF table, chains of "
-        "them: is_TOF_only_norm switching use_tofsens on, `tofsens` lines) —, zero_seg0_end_planes, max_segment_num_to_process (`segrange` lines), "
-        "set_max_timing_pos_num_to_process below the maximum of the data, use_subset_sensitivities, use_tofsens, "
+        "them: is_TOF_only_norm switching use_tofsens on, `tofsens` lines) —, zero_seg0_end_planes (value, gradient, sensitivity and both Hessian products "
+        "without the end planes of segment 0), max_segment_num_to_process (`segrange` lines), "
+        "set_max_timing_pos_num_to_process below the maximum of the data (`tofrange` lines; all quantities over the requested TOF bins, TOF sensitivity switched on), "
+        "use_subset_sensitivities, use_tofsens, "
         "every num_subsets and every subset: set_up's refusal of unbalanced subsets is compared with the model on independently counted viewgrams per subset "
         "(`balance` lines). One line per (quantity, subset): per-voxel results compared with the Lean model evaluated exactly in Rat "
         "on explicit matrix rows (from a separate matrix object without symmetries/cache) with the derived bound |impl - exact| <= 4*n*2^-24*sum|terms| "
@@ -109,8 +111,8 @@ def main(tier, replay):
                         "explicit matrix rows come from ProjMatrixByBinUsingRayTracing itself (row correctness is C03/C04)",
                         "the factor of a data bin is the bin of the normalisation data with the same indices (TOF bin 0 for non-TOF normalisation data): that is the "
                         "harness's reading of 'bin efficiencies', the model receives the factors per bin",
-                        "the TOF range used for the model lines is the one the object reports after set_up (get_max_timing_pos_num_to_process); that it is the "
-                        "requested one is checked by the oracle (class tofrange:set_max_timing_pos_num_to_process-ignored while set_up overwrites the setting)",
+                        "the TOF range used for the model lines and the oracle is the requested one (set_max_timing_pos_num_to_process, default: all TOF bins); "
+                        "what the object reports after set_up goes to the `tofrange` model line",
                         "the prior's own value / gradient / Hessian product are taken from QuadraticPrior (C09's subject)",
                         "set_subset_sensitivity_sptr with recompute off and no file names is refused by set_up in every configuration tried (counted, not a property clause)",
                         "MPI (distributed) paths are not built: which projector pair setup_distributable_computation received is ghost state of the model, "
